@@ -58,15 +58,15 @@ StepsOf(c) ==
        (IF conn[c].ready THEN {[op |-> "goneidle", c |-> c]} ELSE {}) \cup
        (IF ~conn[c].ready
           THEN {[op |-> "agreed", c |-> c, name |-> n, icon |-> 2, opts |-> o, auto |-> <<33>>] : n \in {A, B}, o \in IF Thin THEN {0, 7} ELSE {0, 1, 2, 4}}
-          ELSE {[op |-> "setinfo", c |-> c, name |-> n, icon |-> 3, opts |-> o, auto |-> <<34>>] : n \in IF Thin THEN {B} ELSE {A, B}, o \in {-1, 0, 5}}
+          ELSE {[op |-> "setinfo", c |-> c, name |-> n, icon |-> 3, icon4 |-> i4, opts |-> o, auto |-> <<34>>] : n \in IF Thin THEN {B} ELSE {A, B}, o \in {-1, 0, 5}, i4 \in BOOLEAN}
                \cup {[op |-> "userlist", c |-> c]})
        \cup {[op |-> "close", c |-> c], [op |-> "closebegin", c |-> c]}
-       \cup {[op |-> "chat", c |-> c, chat |-> k, msg |-> <<104>>, emote |-> e] : k \in {0} \cup Chats, e \in BOOLEAN}
+       \cup {[op |-> "chat", c |-> c, chat |-> k, msg |-> <<104>>, emote |-> e, zeroid |-> z] : k \in {0} \cup Chats, e \in BOOLEAN, z \in BOOLEAN}
        \cup {[op |-> "invitenew", c |-> c, target |-> t] : t \in IF Len(chats) < MaxChats THEN {d \in Live \ {c} : conn[d].ph = "in"} ELSE {}}
        \cup {[op |-> "invite", c |-> c, chat |-> k, target |-> t] : k \in Chats, t \in {d \in Live \ {c} : conn[d].ph = "in"}}
        \cup {[op |-> o, c |-> c, chat |-> k] : o \in {"reject", "join", "leave"}, k \in Chats}
        \cup {[op |-> "subject", c |-> c, chat |-> k, subject |-> <<83>>] : k \in Chats}
-       \cup {[op |-> "pm", c |-> c, target |-> t, msg |-> <<112>>] : t \in {d \in Conns \ {c} : conn[d].ph \in {"in", "closed"}}}
+       \cup {[op |-> "pm", c |-> c, target |-> t, msg |-> <<112>>] : t \in {d \in Conns : conn[d].ph \in {"in", "closed"}}}   \* (also to oneself)
        \cup {[op |-> "broadcast", c |-> c, msg |-> <<98>>]}
        \cup {[op |-> "getinfo", c |-> c, target |-> t] : t \in Live}
        \cup {[op |-> "setuser", c |-> c, login |-> l, name |-> <<120>>, acc |-> a, pwset |-> ps, newpw |-> <<5>>]
